@@ -34,7 +34,7 @@ from simkit.rng import seed_globals  # noqa: E402
 from simkit.world import InvalidScenario, Monitor, Violation, result, run_sim  # noqa: E402
 
 PROPERTY = "C10"
-RUNS = {"quick": 8000, "thorough": 1_000_000}
+RUNS = {"quick": 8000, "thorough": 4_000_000}
 WALL = {"quick": 50, "thorough": 1500}
 BATCH = {"quick": 50, "thorough": 500}
 SELFTEST_RUNS = 12
